@@ -167,7 +167,8 @@ SPEC = {
     "theorems": ["C01_any_tables", "C01_partial", "C01_refuted"],
     "more": [{"module": "C01r", "target": "props/C01r.vo",
               "theorems": ["C01_respelled_any_tables", "C01_respelled_partial", "C01_respell_partial",
-                           "C01_respell_unguarded_refuted"]},
+                           "C01_respell_unguarded_refuted", "C01_respell_any_tables", "C01_respell_events",
+                           "C01_action", "C01_numeral_roundtrip", "C01_int_roundtrip", "C01_digits"]},
              {"module": "C01f", "target": "props/C01f.vo",
               "theorems": ["C01_characterised", "C01_f1_exact", "C01_f1_only", "C01_f1_exact_loss",
                            "C01_only_deviation", "C01f_cut_length", "C01f_staged",
